@@ -709,6 +709,14 @@ func c14GenDep(out *proto.Out, rng *proto.Rng, tier string) {
 		for k := rng.Intn(3); k > 0; k-- {
 			add(jid{"", proto.Pick(rng, c14Namespaces), "", "Namespace"})
 		}
+		if rng.Chance(1, 4) {
+			// a custom resource whose KIND is "Namespace" (another API group), named like a namespace in use: not a namespace
+			add(jid{proto.Pick(rng, []string{"", "", proto.Pick(rng, c14Namespaces)}), proto.Pick(rng, c14Namespaces), proto.Pick(rng, []string{"x.io", "servicebus.azure.com"}), "Namespace"})
+		}
+		if rng.Chance(1, 6) {
+			// … and one whose kind is "CustomResourceDefinition" in another group: not a CRD
+			add(jid{"", proto.Pick(rng, []string{"widgets.example.com", "x"}), "x.io", "CustomResourceDefinition"})
+		}
 		ncrd := rng.Intn(3)
 		for k := 0; k < ncrd; k++ {
 			add(jid{"", proto.Pick(rng, []string{"widgets.example.com", "zeds.a.example.com", "x"}), "apiextensions.k8s.io", "CustomResourceDefinition"})
@@ -732,7 +740,7 @@ func c14GenDep(out *proto.Out, rng *proto.Rng, tier string) {
 			o.DepRefs, o.MutRefs = []int{}, []int{}
 			id := u[o.ID]
 			isCRD := id[2] == "apiextensions.k8s.io" && id[3] == "CustomResourceDefinition"
-			if (isCRD && rng.Chance(4, 5)) || rng.Chance(1, 25) {
+			if (isCRD && rng.Chance(4, 5)) || rng.Chance(1, 25) || (id[3] == "CustomResourceDefinition" && rng.Chance(4, 5)) {
 				d := proto.Pick(rng, crdDefs[:3])
 				if messy {
 					d = proto.Pick(rng, crdDefs)
